@@ -360,8 +360,12 @@ def r4(ctx: Ctx):
   ok = False
   if len(loops) == 1:
     l = loops[0]
-    skip = any(isinstance(x, (ast.Continue, ast.Break)) for x in ast.walk(l))
     kv, sv_ = (unparse(x) for x in l.target.elts) if isinstance(l.target, ast.Tuple) else ('', '')
+    # entries of OTHER runners (chained stages share one state) may be skipped
+    foreign = {id(y) for st_ in l.body if isinstance(st_, ast.If)
+               and unparse(st_.test) in (f'{kv}.metrics not in self.agg_fns', f'not {kv}.metrics in self.agg_fns')
+               for b_ in st_.body for y in ast.walk(b_) if isinstance(y, ast.Continue)}
+    skip = any(isinstance(x, (ast.Continue, ast.Break)) and id(x) not in foreign for x in ast.walk(l))
     o1 = pat.search(l, f'$o = self.agg_fns[{kv}.metrics].get_result({sv_})', nested=True)
     ov = o1[0][1]['o'] if o1 else '_'
     fl = pat.search(l, f'$fk = tuple((MetricKey($m, {kv}.slice) for $m in {kv}.metrics))', nested=True)
